@@ -217,7 +217,7 @@ def run(ctx, report):
         cc, code = e.get("country_code"), e.get("bank_code")
         if not code or cc not in reg.countries or lookup_fields.get(cc) is None:
             continue
-        if cc not in picked or set(code) == {"0"} or set(code) == {"9"}:
+        if ctx.tier == "thorough" or cc not in picked or set(code) == {"0"} or set(code) == {"9"}:
             picked.setdefault((cc, code), e)
             if cc not in picked:
                 picked[cc] = e
